@@ -1062,16 +1062,22 @@ func sqGenMain(g *Gen) {
 		"t sh n ( s:hash s:k U0 s:j [ S1 ] ) ; v i:5 v ( i:1 i:2 )", // ^{k: ~x j: [~@l]} reads as a list
 		"t sv n ( q:str U0 q:k ) ; v q:xy",
 	}
-	for _, f := range fixed {
-		g.Emit("%s", f)
-		g.Count("fixed-cases")
+	more := g.Tier == "thorough-more" // a further seed of the thorough tier: random parts only
+	if !more {
+		for _, f := range fixed {
+			g.Emit("%s", f)
+			g.Count("fixed-cases")
+		}
+		// 2. exhaustive small scope
+		maxLen := 3
+		if g.Thorough() {
+			maxLen = 4
+		}
+		sqExhaustive(g, maxLen)
 	}
-	// 2. exhaustive small scope
-	maxLen := 3
-	sqExhaustive(g, maxLen)
 	// 3. random templates, nesting up to 4
 	n := 2500
-	if g.Thorough() {
+	if g.Thorough() || more {
 		n = 40000
 	}
 	for i := 0; i < n; i++ {
@@ -1141,7 +1147,7 @@ func sqGenMain(g *Gen) {
 		}
 		rec(0, nil)
 		limit := 10
-		if g.Thorough() {
+		if g.Thorough() || more {
 			limit = 150
 		}
 		g.Rng.Shuffle(len(combos), func(i, j int) { combos[i], combos[j] = combos[j], combos[i] })
